@@ -1,5 +1,5 @@
 (* Props/C02.v — Well-formed FTL parses to exactly the tree the grammar assigns.
-   Only statements here; proofs are in Syntax/ParseLemmas.v, RoundTrip.v, EntryLoop.v and RoundTripML.v.
+   Only statements here; proofs are in Syntax/ParseLemmas.v, RoundTrip.v, EntryLoop.v, RoundTripML.v and RoundTripSel.v.
    The grammar is Syntax/Render.v: `render cs t` prints the tree t with the layout choices cs, and
    `wf_resource t` says that t is well-formed (together with WfUtf8.wf_utf8_resource: its strings are UTF-8).
 
@@ -9,22 +9,32 @@
    and, as the code stands, it is FALSE: finding D7 (a comment whose last line is empty, printed as the last
    line of the file without a line end, loses that line) is a counterexample, proved here:
      C02_roundtrip_statement_refuted_by_D7
-   PROVED FOR THE FRAGMENT ml_resource (RoundTripML.v; entry level: EntryLoop.v), for ALL layouts cs:
-     C02_roundtrip_multiline_partial           the statement restricted to the fragment
-     C02_multiline_is_wellformed               the fragment lies inside wf_resource
-     C02_layout_independent_multiline_partial  the parsed tree, after joining adjacent text elements, does
+   PROVED FOR THE FRAGMENTS sel_resource d (RoundTripSel.v; d = nesting depth of placeables, any d), for ALL
+   layouts cs (RoundTripML.v: the pattern level, generic in the placeables; EntryLoop.v: the entry level):
+     C02_roundtrip_select_partial              the statement restricted to the fragment
+     C02_select_is_wellformed                  the fragment lies inside wf_resource
+     C02_layout_independent_select_partial     the parsed tree, after joining adjacent text elements, does
                                                not depend on the layout (the parser returns one text element
                                                per line, and how a line break is split may depend on LF/CRLF)
-   and for its sub-fragment simple_resource (RoundTrip.v: one-line patterns; C02_simple_in_multiline), where
-   the parser returns the tree itself:
+     C02_select_depth_monotone                 sel_resource d is contained in sel_resource (d+1)
+   the same at depth 0 (placeables hold a simple inline expression; names kept from the previous step):
+     C02_roundtrip_multiline_partial, C02_multiline_is_wellformed, C02_layout_independent_multiline_partial
+   and for the sub-fragment simple_resource of depth 0 (RoundTrip.v: one-line patterns; C02_simple_in_multiline),
+   where the parser returns the tree itself:
      C02_roundtrip_simple_partial, C02_simple_is_wellformed, C02_layout_independent_simple_partial
-   The fragment (RoundTripML.ml_resource): every entry is
+   PLACEABLES of depth d (RoundTripSel.eokd d):
+     depth 0: a variable reference, a message reference with or without attribute, a term reference without
+       attribute and arguments, a number literal or a string literal (any escapes);
+     depth d+1: one of these, or a placeable around an expression of depth d ("{ { $x } }"), or a SELECT
+       expression: the selector is a string literal, a number literal or a variable reference; exactly one
+       variant is the default; keys are well-formed identifiers or numbers; every variant value is a pattern
+       as described below whose placeables have depth d (so values may have several lines, and selects nest).
+   The fragment (sel_resource d = RoundTripML.ml_resource (eokd d)): every entry is
      * a stand-alone comment of any of the three levels (#, ##, ###), or
      * a message or a term, with or without an attached comment; its value and the value of each of its
        attributes is a pattern (RoundTripML.ml_pattern): a non-empty sequence of text elements (not empty,
-       no two in a row) and placeables whose expression is a variable reference, a message reference with or
-       without attribute, a term reference without attribute and arguments, a number literal or a string
-       literal (any escapes).  Text may contain LINE BREAKS (LF): every line is free of '{' '}' CR, its first
+       no two in a row) and placeables of depth d.  Text may contain LINE BREAKS (LF): every line is free of
+       '{' '}' CR, its first
        byte is not a UTF-8 continuation byte; a line after a line break
          - may be indented by any number of spaces (extra indentation, kept by the parser),
          - may be empty (a blank line inside the pattern), but a line of spaces only must be empty unless a
@@ -41,17 +51,21 @@
    block start of each value (with an optional blank line), the indentation of the lines of a value after
    a line break (4-6 spaces, 8-10 in an attribute, the same for all lines of the value; the parser removes
    it), 0-1 spaces on a blank line inside a value, blanks (spaces and line
-   breaks) inside the braces of a placeable, attribute lines indented by 1-3 spaces, 0-2 blank lines at the
+   breaks) inside the braces of a placeable; for a select expression: 0-2 spaces or a line break before
+   "->" (one space at least after a selector that ends in an identifier character), 0-2 spaces after it, the
+   variants on lines of their own indented by the pattern's indentation plus 0-2, an optional blank line
+   before a variant, blanks inside "[ ]", 0-2 spaces before the value, the value's further lines indented by
+   4-6 more, 0-2 spaces and an optional line break before the closing brace; attribute lines indented by 1-3 spaces, 0-2 blank lines at the
    start, no blank line between an attached comment and its entry, the blank lines the grammar
    requires after a stand-alone comment (so that it neither attaches to the next message nor merges with the
    next comment) plus 0-2 more between any two entries, 0-2 spaces on blank
    lines, LF or CRLF at every line end (also inside a value), final line end absent / present / followed by a
    blank line.  (The proof covers more: any indentation >= 1, any number of spaces and blank lines.)
-   EXCLUDED from the fragment: comments whose last line is empty or whitespace-only, select
-   expressions, function references and call arguments, term attributes, nested placeables, Junk.
+   EXCLUDED from the fragment: comments whose last line is empty or whitespace-only, function references and
+   call arguments (also as selectors), term attributes (as selectors), Junk.
    Examples (vm_compute) for trees outside the fragment: C02_example_xxx.                            *)
 From FluentV Require Import Base.Bytes Base.Outcome Base.Utf8 Syntax.Ast.
-From FluentV Require Import Syntax.ParserModel Syntax.Render Syntax.TreeNorm Syntax.WfUtf8 Syntax.RoundTrip Syntax.RoundTripML.
+From FluentV Require Import Syntax.ParserModel Syntax.Render Syntax.TreeNorm Syntax.WfUtf8 Syntax.RoundTrip Syntax.RoundTripML Syntax.RoundTripSel.
 
 (* "Every resource that is well-formed under the Fluent 1.0 grammar parses without errors or Junk and
    yields exactly the entries the grammar assigns to it ...  The tree does not depend on layout choices
@@ -62,28 +76,46 @@ Definition C02_roundtrip_statement : Prop :=
   forall cs t, wf_resource t = true -> wf_utf8_resource t = true ->
   exists t', parse (render cs t) = Done (t', []) /\ map join_entry t' = t.
 
-(* the same statement for the trees of the fragment (no UTF-8 premise needed there) *)
-Theorem C02_roundtrip_multiline_partial :
-  forall cs t, ml_resource t = true ->
+(* the same statement for the trees of the fragments (no UTF-8 premise needed there); d: nesting depth *)
+Theorem C02_roundtrip_select_partial :
+  forall d cs t, sel_resource d t = true ->
   exists t', parse (render cs t) = Done (t', []) /\ map join_entry t' = t.
-Proof. exact parse_render_ml. Qed.
+Proof. exact parse_render_sel. Qed.
 
-Theorem C02_multiline_is_wellformed : forall t, ml_resource t = true -> wf_resource t = true.
-Proof. exact ml_resource_wf. Qed.
+Theorem C02_select_is_wellformed : forall d t, sel_resource d t = true -> wf_resource t = true.
+Proof. exact sel_resource_wf. Qed.
 
 (* layout independence on the fragment: "the tree does not depend on layout choices" *)
-Theorem C02_layout_independent_multiline_partial :
-  forall cs1 cs2 t, ml_resource t = true ->
+Theorem C02_layout_independent_select_partial :
+  forall d cs1 cs2 t, sel_resource d t = true ->
   exists t1 t2, parse (render cs1 t) = Done (t1, []) /\ parse (render cs2 t) = Done (t2, []) /\
                 map join_entry t1 = map join_entry t2.
 Proof.
-  intros cs1 cs2 t Ht. destruct (parse_render_ml cs1 t Ht) as (t1 & E1 & J1).
-  destruct (parse_render_ml cs2 t Ht) as (t2 & E2 & J2). exists t1, t2. rewrite J1, J2. auto.
+  intros d cs1 cs2 t Ht. destruct (parse_render_sel d cs1 t Ht) as (t1 & E1 & J1).
+  destruct (parse_render_sel d cs2 t Ht) as (t2 & E2 & J2). exists t1, t2. rewrite J1, J2. auto.
 Qed.
 
+Theorem C02_select_depth_monotone : forall d t, sel_resource d t = true -> sel_resource (S d) t = true.
+Proof. exact sel_resource_mono. Qed.
+
+(* depth 0: multi-line patterns whose placeables hold a simple inline expression *)
+Theorem C02_roundtrip_multiline_partial :
+  forall cs t, sel_resource 0 t = true ->
+  exists t', parse (render cs t) = Done (t', []) /\ map join_entry t' = t.
+Proof. exact (parse_render_sel 0). Qed.
+
+Theorem C02_multiline_is_wellformed : forall t, sel_resource 0 t = true -> wf_resource t = true.
+Proof. exact (sel_resource_wf 0). Qed.
+
+Theorem C02_layout_independent_multiline_partial :
+  forall cs1 cs2 t, sel_resource 0 t = true ->
+  exists t1 t2, parse (render cs1 t) = Done (t1, []) /\ parse (render cs2 t) = Done (t2, []) /\
+                map join_entry t1 = map join_entry t2.
+Proof. exact (C02_layout_independent_select_partial 0). Qed.
+
 (* the one-line sub-fragment, where the parser returns the printed tree itself *)
-Theorem C02_simple_in_multiline : forall t, simple_resource t = true -> ml_resource t = true.
-Proof. exact simple_resource_ml. Qed.
+Theorem C02_simple_in_multiline : forall t, simple_resource t = true -> sel_resource 0 t = true.
+Proof. exact simple_resource_sel. Qed.
 
 Theorem C02_roundtrip_simple_partial :
   forall cs t, simple_resource t = true ->
@@ -155,7 +187,7 @@ Definition ex_ml : resource :=
                                      TextElement ([10%N] ++ b "second" ++ [10%N] ++ b " third")])]
      (Some (Comment [b "attached"]));
    Message (b "m") (Some (Pattern [TextElement (b "one line")])) [] None].
-Example C02_example_ml_in_fragment : ml_resource ex_ml = true.
+Example C02_example_ml_in_fragment : sel_resource 0 ex_ml = true.
 Proof. vm_compute. reflexivity. Qed.
 Example C02_example_ml_layout_1 : roundtrips_under [] ex_ml.
 Proof. rt. Qed.
@@ -165,6 +197,32 @@ Proof. rt. Qed.
 (* the parser's tree has one text element per line: it is not the printed tree, only joins to it *)
 Example C02_example_ml_split : forall t', parse (render [] ex_ml) = Done (t', []) -> t' <> ex_ml.
 Proof. intros t' H. vm_compute in H. injection H as <-. discriminate. Qed.
+
+(* inside the fragment of depth 2: a select with identifier and number keys, a multi-line variant value, a
+   nested select inside a variant, a placeable around a placeable; also as the whole value of an attribute *)
+Definition ex_sel : resource :=
+  [Message (b "emails")
+     (Some (Pattern [TextElement (b "You have ");
+                     PlaceableElement (Select (VariableReference (b "n"))
+                        [Variant (KeyIdentifier (b "one")) (Pattern [TextElement (b "one email")]) false;
+                         Variant (KeyNumber (b "2")) (Pattern [TextElement (b "two" ++ [10%N] ++ b "lines" ++ [10%N] ++ b "  of text")]) false;
+                         Variant (KeyIdentifier (b "other"))
+                           (Pattern [PlaceableElement (Inline (Placeable (Inline (VariableReference (b "n")))));
+                                     TextElement (b " emails ");
+                                     PlaceableElement (Select (StringLiteral (b "x"))
+                                        [Variant (KeyNumber (b "-1.5")) (Pattern [TextElement (b "[a]")]) true])]) true]);
+                     TextElement (b " now")]))
+     [Attribute (b "title") (Pattern [PlaceableElement (Select (NumberLiteral (b "1"))
+                                        [Variant (KeyIdentifier (b "a")) (Pattern [TextElement (b "A")]) true;
+                                         Variant (KeyIdentifier (b "b")) (Pattern [TextElement (b "B")]) false])])]
+     (Some (Comment [b "about mail"]))].
+Example C02_example_sel_in_fragment : sel_resource 2 ex_sel = true.
+Proof. vm_compute. reflexivity. Qed.
+Example C02_example_sel_layout_1 : roundtrips_under [] ex_sel.
+Proof. rt. Qed.
+Example C02_example_sel_layout_2 :
+  roundtrips_under [2;1;2;3;1;0;2;1;3;2;2;1;4;3;0;3;1;2;2;4;1;3;3;0;2;1;1;2;3;4;0;1;2;3;2;1;0;3;3;2;1;2;2;3;1;4;0;2;3;1;1;2;4;3;2;0;1;3;2;2;1;4;3] ex_sel.
+Proof. rt. Qed.
 
 (* a select expression with a default variant, a term reference with call arguments, an attribute *)
 Definition ex_select : resource :=
